@@ -52,6 +52,23 @@ func main() {
 		}
 		os.Stdout.Write(b)
 		fmt.Println()
+	case "dirmap":
+		prog, err := LoadProgram("linux", "amd64", false)
+		if err != nil {
+			fmt.Fprintln(os.Stderr, err)
+			os.Exit(2)
+		}
+		dm := prog.DirectiveMap()
+		var names []string
+		for n := range dm.ByName {
+			names = append(names, n)
+		}
+		sort.Slice(names, func(i, j int) bool { return dm.ByName[names[i]].Index < dm.ByName[names[j]].Index })
+		for _, n := range names {
+			d := dm.ByName[n]
+			fmt.Printf("%3d %-14s st=%-5s mod=%-5v action=%v handlers=%v\n", d.Index, n, d.ServerType, d.InModule, d.Action != nil, d.HandlerTys)
+		}
+		fmt.Println(len(dm.Order), "listed;", len(dm.ByName), "registered")
 	case "dump":
 		// debugging aid: print the SSA of a function
 		prog, err := LoadProgram("linux", "amd64", false)
